@@ -490,8 +490,8 @@ func c10mkSpec(sec, in, ans string) (string, string) {
 		}
 		varname, value, sp, hc, comment, align := unhx(f[2]), unhx(f[5]), unhx(f[7]), f[8] == "1", unhx(f[9]), f[10]
 		if align == "P" {
-			if strings.Contains(varname, "$#") {
-				return "valuealign-panic-dollar-hash-in-varname", "matchVarassign accepts the line but MkLine.ValueAlign() (VaralignSplitter.split) panics"
+			if strings.Contains(varname, "#") && strings.Contains(varname, "$") {
+				return "valuealign-panic-hash-and-expression-in-varname", "matchVarassign accepts the line but MkLine.ValueAlign() (VaralignSplitter.split) panics"
 			}
 			if strings.Contains(varname, "#") {
 				return "valuealign-panic-escaped-hash-in-varname", "matchVarassign accepts the line but MkLine.ValueAlign() (VaralignSplitter.split) panics"
@@ -1334,7 +1334,7 @@ func runC10mk(ctx *Ctx) *Result {
 	}
 
 	// corpus: inputs that once mattered
-	corpus := []string{"A.\\#=v", " \t#x", "$\\#=v", "${A:S,a,b}=v # ,}", "A.\\#\\#b${c}\\# =v", "X= ${VAR:!echo $$x!}", "${A:!$", "${A:!a$$!}", "${A:x${A:x${A:x${A:x}}}}", "a$", "$", "$$", "${", "$(", "${}", "${:}", "${A:S}",
+	corpus := []string{"A.\\#=v", " \t#x", "$\\#=v", "${a:C\\x\\#\\g\\}=v", "${A:S,a,b}=v # ,}", "A.\\#\\#b${c}\\# =v", "X= ${VAR:!echo $$x!}", "${A:!$", "${A:!a$$!}", "${A:x${A:x${A:x${A:x}}}}", "a$", "$", "$$", "${", "$(", "${}", "${:}", "${A:S}",
 		"${A:S,a,b,S,c,d,}", "${A:S=x}", "${A:ts}", "${A:ts:}", "${A:@v@$v@}", "${A:[#]}", "${A::=x}", "${:!x!}", "#A=v", "# A=v", " A=v", "A=v # c", "A=\\#x #y", "A= [#] #c",
 		"A=v\\", "A=v \\\\", "\tA=v", "A+=v", "A+ =v", "A =v", "SITES_a.b=c", "A=#", "A= #", "A=\\"}
 	var cs []c10mkCase
